@@ -4,7 +4,14 @@ From Dae Require Import C17_Spec C17_Model C17_Check.
 Import ListNotations.
 Open Scope N_scope.
 
-Record lex_case := { lc_text : str; lc_errors : bool; lc_toks : list (N * str) }.
+(* observed tokens: types, byte lengths, and all token texts concatenated *)
+Record lex_case := { lc_text : str; lc_errors : bool; lc_types : list N; lc_lens : list nat; lc_cat : str }.
+Fixpoint cut (types : list N) (lens : list nat) (cat : str) : list (N * str) :=
+  match types, lens with
+  | t :: ts, n :: ns => (t, firstn n cat) :: cut ts ns (skipn n cat)
+  | _, _ => []
+  end.
+Definition lc_toks (c : lex_case) : list (N * str) := cut (lc_types c) (lc_lens c) (lc_cat c).
 
 (* ANTLR token type of a model token *)
 Definition tok_type (t : tok) : N :=
@@ -39,7 +46,8 @@ Fixpoint toks_match (ts : list tok) (os : list (N * str)) : bool :=
 (* 1: the model lexer and the ANTLR lexer disagree (token stream, or whether the text has a lexical error) *)
 Definition check_lex (c : lex_case) : list N :=
   match lex (S (List.length (lc_text c))) (lc_text c) with
-  | Ok ts => if negb (lc_errors c) && toks_match ts (lc_toks c) then [] else [1]
+  | Ok ts => if negb (lc_errors c) && Nat.eqb (List.length (lc_types c)) (List.length (lc_lens c))
+                && toks_match ts (lc_toks c) then [] else [1]
   | Err => if lc_errors c then [] else [1]
   | OutOfFuel => [3]
   end.
